@@ -37,7 +37,7 @@ def run(ck):
     ck.prove("Props/C01.v", timeout=2400)
     cases = []
     # --- K1: irfft2 model
-    for N in ([3, 4] if quick else [3, 4, 5, 6, 7, 8]):
+    for N in ([3, 4] if quick else [3, 4, 5, 6]):   # (N = 7: 8 minutes per interval goal, N = 8 more)
         for _ in range(1 if quick else 2):
             F = [[[formlib.dy(rng, -4, 4, 3), formlib.dy(rng, -4, 4, 3)] for _ in range(N // 2 + 1)] for _ in range(N)]
             cases.append({"mode": "fft", "N": N, "F": F, "pixels": [[rng.randrange(N), rng.randrange(N)] for _ in range(2)]})
@@ -99,7 +99,7 @@ def run(ck):
             ck.count(json.dumps(c), nontrivial=True)
             if r["oracle"]:
                 oracle_bad.append((c, r))
-    ck.rule = ("irfft2 model: random dyadic half-plane arrays for N=3..8 (odd and even); amplitude sums at random n in [0.66, 8]; totals: 7 profile types x 3 renderers, odd/even and "
+    ck.rule = ("irfft2 model: random dyadic half-plane arrays for N=3..6 (odd and even); amplitude sums at random n in [0.66, 8]; totals: 7 profile types x 3 renderers, odd/even and "
                "non-normalised PSFs, sub-pixel centres, frames 48/64")
     ok, detail, failing = True, "", []
     if any(o["name"].startswith("translate:") and not o["ok"] for o in ck.obligations):
@@ -121,7 +121,7 @@ def run(ck):
             old = losslib.HDR
             losslib.HDR = hdr
             try:
-                failing = losslib.run_goals(ck, goals, "c01", shard=4)
+                failing = losslib.run_goals(ck, goals, "c01", shard=4 if quick else 2)
             finally:
                 losslib.HDR = old
             ck.extra["coq_goals"] = len(goals)
@@ -137,12 +137,12 @@ def run(ck):
                    "translator units Formulas/Ramps/Amps/RenderGlue; run-time dump of the amplitude table and of interpax.approx_df (corr/dump_tables.py)",
                    "hand model of jnp.fft.irfft2 (Base/Dft.v: complex inverse FFT along rows, C2R along columns) tied by the interval correspondence; the forward rfft2 enters only through its "
                    "zero-frequency value sum(image)",
-                   "NOT proved: that the plane integral of the analytic Sersic law is the flux; the 12-point quadrature error (pixel); sampled-vs-integrated real-space Gaussians (hybrid); the "
+                   "NOT proved: the 2-D (elliptical) plane integral of the analytic Sersic law (its circular radial integral for integer 2n IS proved to be the flux); the 12-point quadrature error (pixel); sampled-vs-integrated real-space Gaussians (hybrid); the "
                    "in-footprint fraction f_in - all only through the search oracle; float32 rounding (margin of the certificate: 0.9589 vs 0.955)"]
     ck.explanation = ("Proved: zero-frequency value of the Fourier Gaussian mixture = sum of amplitudes, of the point source = flux, of both PSF ramps = 1 (for any pi literal); sum over all pixels of "
                       "irfft2(F) = Re F[0,0] for every N>=1 and every half-plane array (roots-of-unity geometric sums); FFT convolution multiplies the total by PSF_fft[0,0]; amplitudes = table x "
                       "flux and composites split the flux f / 1-f; certificate: for EVERY n in [0.8,6] the interpolated unit-flux amplitudes sum to within [0.955,1.045] ([0.98,1.02] on "
-                      "[1.25,4]).  Hence the Fourier renderer's total is sum(psf)*flux*S_T(n) independent of position, angle, ellipticity, r_eff, PSF and frame size.")
+                      "[1.25,4]).  Hence the Fourier renderer's total is sum(psf)*flux*S_T(n) independent of position, angle, ellipticity, r_eff, PSF and frame size.  The sum over all pixels of the centred convolution is total(scene)*sum(psf) (spatial form).  For integer 2n the light of the generated 1-D profile between radii a and R is flux*(P(2n,tR)-P(2n,ta)) with P the regularised incomplete gamma integral (proved), 0<=P<=1, P(m,x)<=x^m/m!, 1-P(m,x)<=m(m+1)!/x^2: the flux argument is the total light.")
     if ck.broken():
         if oracle_bad:
             c, r = oracle_bad[0]
